@@ -116,6 +116,29 @@ def unguardedBaseline : List (String × String × String) := [
   ("xpath_tokens/tokens.py", "evaluate", "lookup:variables"),
   ("xpath_tokens/tokens.py", "nud", "lookup:symbol_table")]
 
+/-! ## per-call table look-ups and the handlers that guard them
+
+Generated table `EPV.Gen.C03.lookupSites` = every subscript look-up `X.<table>[key]` (tables: namespaces,
+variables, documents, collections, text_resources, symbol_table, decimal_formats, variable_types) in the
+operator / function / token modules as (file, method, table, handler classes of the innermost enclosing
+`try`, "" if none).  A look-up that loses its `except KeyError` (or whose handler is narrowed) is a changed
+row and breaks `EPV.C03.lookup_sites_baseline`. -/
+def lookupBaseline : List (String × String × String × String) := [
+  ("xpath2/_xpath2_functions.py", "evaluate__collection", "collections", "KeyError,TypeError"),
+  ("xpath2/_xpath2_functions.py", "evaluate__doc_functions", "documents", "KeyError,TypeError"),
+  ("xpath2/_xpath2_operators.py", "evaluate__cast_expressions", "symbol_table", "KeyError"),
+  ("xpath30/_xpath30_functions.py", "evaluate__format_number", "decimal_formats", "KeyError"),
+  ("xpath30/_xpath30_functions.py", "evaluate__function_lookup", "symbol_table", "KeyError"),
+  ("xpath30/_xpath30_functions.py", "evaluate__unparsed_text", "text_resources", ""),      -- guarded by `uri in context.text_resources`
+  ("xpath30/_xpath30_operators.py", "evaluate__function_reference", "symbol_table", "KeyError"),
+  -- a type name without a constructor token (xs:anyAtomicType; xs:numeric before 3.1): the value is left alone
+  ("xpath_tokens/base.py", "cast_to_primitive_type", "symbol_table", "KeyError"),
+  ("xpath_tokens/tokens.py", "evaluate", "variables", ""),                                 -- inside the KeyError handler, guarded by `in`
+  ("xpath_tokens/tokens.py", "evaluate", "variables", "KeyError"),
+  ("xpath_tokens/tokens.py", "led", "namespaces", "KeyError"),
+  ("xpath_tokens/tokens.py", "nud", "symbol_table", ""),                                   -- the '(name)' class: registered (specials_registered)
+  ("xpath_tokens/tokens.py", "nud", "symbol_table", "KeyError")]
+
 /-! ## `while` loops of the package and their termination arguments
 
 Generated table `EPV.Gen.C03.whileLoops` = every `while` statement of elementpath/**/*.py as
